@@ -8,11 +8,11 @@ RULE = ('score tensors N(1-8) x C(2-40) x T(1-60) built from a chosen arg-max pa
         'repeats split by blank, first frame non-blank, last class next to blank, identical rows, different rows, single frame) with arg-max '
         'margin >= 1e-2; plus batches pushed through the real PytorchEngineLineOCR.run_ocr with a stub net. '
         'non-trivial = some line has a non-empty transcription with a merged repeat or a dropped blank; distinct = hash of the arg-max paths')
-ASSUMPTIONS = ['exact arg-max ties are not generated (the statement gives no tie rule); frames of engine output with margin < 1e-4 are skipped as ambiguous',
+ASSUMPTIONS = ['for exact arg-max ties (class exact_ties: quantised outputs) only the agreement of the engine decoder and the stand-alone decoder is required (the statement gives no tie rule for the reference collapse); frames of engine output with margin < 1e-4 are skipped as ambiguous elsewhere',
                'blank is the last class; 3-D tensors only (the 2-D branch of the engine decoder is not reachable from the repository)']
 N = {'quick': 5000, 'thorough': 300000}
-CLASSES = ['random', 'lead_trail_blank', 'all_blank', 'repeats_split', 'first_nonblank', 'last_class', 'identical_rows', 'different_rows', 'single_frame', 'engine']
-REQUIRED = ['engine_lines', 'standalone_lines', 'filtration_lines', 'run_ocr_lines']
+CLASSES = ['random', 'lead_trail_blank', 'all_blank', 'repeats_split', 'first_nonblank', 'last_class', 'identical_rows', 'different_rows', 'single_frame', 'engine', 'exact_ties']
+REQUIRED = ['tie_lines', 'engine_lines', 'standalone_lines', 'filtration_lines', 'run_ocr_lines']
 
 
 def setup(ctx):
@@ -44,6 +44,11 @@ def gen(rng, i, ctx):
         data[rng.random(size=(n, 1, w, 1)).repeat(16, 1).repeat(3, 3) < 0.4] = 0
         return {'cls': cls, 'data': data}
     N_, C, T = int(rng.integers(1, 9)), int(rng.integers(2, 41)), int(rng.integers(1, 61))
+    if cls == 'exact_ties':
+        # quantised / saturated outputs: exact ties between the best symbols of a frame (also between blank and a character)
+        C = int(rng.integers(2, 6))
+        sc = rng.integers(0, 3, size=(N_, C, T)).astype(np.float32) * float(rng.choice([1.0, 0.5, 7.0]))
+        return {'cls': cls, 'scores': sc, 'C': C, 'am': None}
     if cls == 'single_frame':
         T = 1
     blank = C - 1
@@ -82,6 +87,8 @@ def gen(rng, i, ctx):
 def describe(case):
     if case['cls'] == 'engine':
         return {'cls': 'engine', 'data': case['data']}
+    if case['cls'] == 'exact_ties':
+        return {'cls': 'exact_ties', 'C': case['C'], 'scores': case['scores']}
     return {'cls': case['cls'], 'C': case['C'], 'argmax_paths': case['am']}
 
 
@@ -141,6 +148,20 @@ def check(case, mon, ctx):
         return
     C = case['C']
     chars = [chr(0x61 + k) for k in range(C - 1)]
+    if case['cls'] == 'exact_ties':
+        # the statement fixes no tie rule for the arg-max, but its second sentence still demands that the engine's batched decoder
+        # and the stand-alone decoder produce the same text for the same network output
+        sc = case['scores']
+        got = ctx.poe.greedy_decode_ctc(ctx.torch.from_numpy(sc.copy()), chars + ['​'])
+        gd = ctx.decoders.GreedyDecoder(chars + [ctx.decoders.BLANK_SYMBOL])
+        for n in range(sc.shape[0]):
+            lp = ctx.torch.log_softmax(ctx.torch.from_numpy(sc[n].T.astype(np.float64)), dim=1).numpy()
+            g = gd(lp).best_hyp()
+            mon.count('tie_lines')
+            if len(got) != sc.shape[0] or g != got[n]:
+                mon.violation('engine-vs-standalone', {'site': 'exact ties', 'line': n, 'engine': got[n] if n < len(got) else None, 'standalone': g, 'scores': sc[n]})
+        mon.mark_nontrivial({'ties': sc})
+        return
     nontriv, _ = check_tensor(case['scores'], chars + ['​'], chars, mon, ctx, expected_paths=case['am'])
     if nontriv:
         mon.mark_nontrivial({'paths': case['am'], 'C': C})
